@@ -29,7 +29,7 @@ type FuncResult struct {
 }
 
 func newExec(P *Prog, fn *ssa.Function) *Exec {
-	return &Exec{P: P, root: fn, notes: map[string]bool{}, written: map[string]bool{}, immutable: map[string][]*Term{},
+	return &Exec{P: P, root: fn, notes: map[string]bool{}, written: map[string]bool{}, tagFacts: map[int]*Term{}, immutable: map[string][]*Term{},
 		oblCount: map[string]int{}, inlined: map[string]bool{}, usedCts: map[string]bool{}, unchecked: map[string]bool{}, assumes: map[string]bool{}, atomicOps: map[string]bool{}}
 }
 
@@ -60,8 +60,10 @@ func (P *Prog) runInit(pkg *ssa.Package) *initInfo {
 		st.now = IntLit(int64(len(P.initDone)) * 1000000)
 		fr := ex.newFrame(fn, nil, nil, st, nil)
 		fr.root = true
+		base := int64(len(P.initDone)) * 1000000
 		_, out, pc := ex.run(fr, st, True)
-		ii.final, ii.pc = out, pc
+		// initialisers of different packages get disjoint intervals of the allocation clock
+		ii.final, ii.pc = out, And(pc, IntOp("<", out.now, IntLit(base+1000000)))
 	}()
 	if ii == nil {
 		return nil
@@ -193,7 +195,16 @@ func (P *Prog) verifyFunction(fn *ssa.Function, safetyTags []string) (res *FuncR
 			for _, cl := range ex.rct.Clauses {
 				if cl.Kind == "requires" && cl.Expr != nil {
 					g := ex.evalBool(cl.Expr, env)
-					if ict != nil {
+					isInv := false
+					for _, t := range cl.Tags {
+						if t == "inv" {
+							isInv = true
+						}
+					}
+					if isInv {
+						ex.assumes["module invariant of "+ex.P.relName(fn)+" (established by Provision, assumed here): "+cl.Src] = true
+					}
+					if ict != nil && !isInv {
 						// refinement: the implementation may not demand more than the interface grants
 						ex.addObl(fr, "refine-pre", fn.Pos(), pc, g, "interface precondition implies: "+cl.Src, ex.rct.ImplTags, cl)
 					}
@@ -203,6 +214,19 @@ func (P *Prog) verifyFunction(fn *ssa.Function, safetyTags []string) (res *FuncR
 			if len(ex.pendingAssume) > 0 {
 				pc = And(append([]*Term{pc}, ex.pendingAssume...)...)
 				ex.pendingAssume = nil
+			}
+			// dynamic types fixed by the precondition (istype(x, T))
+			if pc.op == "and" {
+				for _, c := range pc.args {
+					if c.op == "=" && c.args[0].sort == SInt {
+						a, b := c.args[0], c.args[1]
+						if a.isLit() && b.op == "var" {
+							ex.tagFacts[b.id] = a
+						} else if b.isLit() && a.op == "var" {
+							ex.tagFacts[a.id] = b
+						}
+					}
+				}
 			}
 		}
 		return fr, st, pc
